@@ -57,7 +57,7 @@ func c20Docs() []string {
 			add(`[` + x + `,` + y + `]`)
 		}
 	}
-	for _, x := range []string{`{"a":{"a":{"a":1,"b":2},"b":[{"a":3}]},"b":{"a":4}}`, `[[[1,2],[3]],{"a":[{"b":1},{"b":2}]}]`, `{"a":[{"b":1,"a":{"b":5}},{"b":2},3],"b":{"b":{"b":4}}}`, ` { "a" : [ 1 , { "b" : 2 } ] } `, `{}`, `[]`, `null`, `{"a":null}`, `{"a.b":{"a":1},"0":2,"":3}`} {
+	for _, x := range []string{`{"a":{"a":{"a":1,"b":2},"b":[{"a":3}]},"b":{"a":4}}`, `[[[1,2],[3]],{"a":[{"b":1},{"b":2}]}]`, `{"a":[{"b":1,"a":{"b":5}},{"b":2},3],"b":{"b":{"b":4}}}`, ` { "a" : [ 1 , { "b" : 2 } ] } `, `{}`, `[]`, `null`, `{"a":null}`, `{"a.b":{"a":1},"0":2,"":3}`, `{"\u0061":{"\u0062":1,"b\u0000":2},"a\/b":3}`, `[{"\u0061":1},{"a":2},{"\u0041":3}]`, `{"a":{"\"":1,"\\":2,"b":3}}`} {
 		add(x)
 	}
 	return out
